@@ -216,3 +216,41 @@ func VerifC17Stall() {
 	}
 	verifCover("end")
 }
+
+// VerifC17NonBlockingRace: several input goroutines dispatch into the same shard buffer at once while the
+// shard worker is busy (retrying a flush: nobody receives). The interleaving is a decision variable (the
+// engine may switch goroutines before every channel / atomic / lock operation, up to "preemptions" times).
+// In non-blocking mode no schedule may park a dispatcher: a dispatcher blocked in a send with no receiver is
+// reported by the engine as a deadlock; and every line is either buffered or counted as dropped.
+func VerifC17NonBlockingRace() {
+	capacity := 1 + verifChoice("cap", 2)
+	prefill := verifChoice("prefill", capacity+1)
+	producers := verifParamInt("producers", 2)
+	buf := make(chan []byte, capacity)
+	for i := 0; i < prefill; i++ {
+		buf <- []byte("x 0 1500000000")
+	}
+	gauge := stats.Gauge("dest=race.unit=Metric.what=numBuffered")
+	drops := stats.Counter("dest=race.unit=Metric.action=drop.reason=queue_full")
+	done := make(chan bool, producers)
+	verifPreemptions(verifParamInt("preemptions", 1))
+	for i := 0; i < producers; i++ {
+		line := []byte{'a' + byte(i), ' ', '1', ' ', '1'}
+		go func() {
+			dispatchNonBlocking(buf, line, gauge, drops)
+			done <- true
+		}()
+	}
+	for i := 0; i < producers; i++ {
+		<-done
+	}
+	verifPreemptions(0)
+	verifAssert(gauge.Value()+drops.Count() == int64(producers), "every-line-buffered-or-counted-as-dropped")
+	verifAssert(int64(len(buf)) == int64(prefill)+gauge.Value(), "buffered-lines-are-in-the-buffer")
+	room := int64(capacity - prefill)
+	if room > int64(producers) {
+		room = int64(producers)
+	}
+	verifAssert(gauge.Value() == room, "dropped-only-when-the-buffer-was-full")
+	verifCover("end")
+}
